@@ -285,7 +285,7 @@ func PowOK(resp F, powBits int) bool {
 	return bits.LeadingZeros64(resp) >= powBits
 }
 
-func plonkInstance(c *Common, zeta E) FriInstance {
+func PlonkInstance(c *Common, zeta E) FriInstance {
 	var all []PolyRef
 	nPre := c.NumConstants + c.NumRoutedWires
 	for i := 0; i < nPre; i++ {
@@ -407,7 +407,7 @@ func Verify(p *Proof, vd *VerifierData, c *Common) (err error) {
 	if prm.NumQueryRounds != len(p.Fri.Rounds) || len(ch.QueryIndicesRaw) != len(p.Fri.Rounds) {
 		return fmt.Errorf("number of query rounds")
 	}
-	inst := plonkInstance(c, ch.Zeta)
+	inst := PlonkInstance(c, ch.Zeta)
 	o := &p.Openings
 	var b0 []E
 	for _, l := range [][]E{o.Constants, o.PlonkSigmas, o.Wires, o.PlonkZs, o.PartialProducts, o.QuotientPolys} {
